@@ -426,7 +426,7 @@ static void DecodeDATA_AVR(Word Index) {
     MaxV        = ((ActPC == SegCode) && (!Packing)) ? 65535 : 255;
     MinV        = (-((MaxV + 1) >> 1));
     WordAccFull = FALSE;
-    if (ChkArgCnt(1, ArgCntMax)) {
+    if (ChkArgCnt(1, ArgCntMax) && SetMaxCodeLenForArgs()) {
         OK = True;
         for (z = 1; z <= ArgCnt; z++) {
             if (OK) {
